@@ -255,8 +255,17 @@ def mon_flow(ctx, conn):
     allow = {}
     closed = set()
     mfs = 16384
+    owed = {}        # sid -> octets of the finished handler's response body not yet seen in DATA
+    torn = False
     for op, out in conn.steps:
         f = op.split(" ")
+        if f[2] == "done" and not out.startswith("out no-handler"):
+            sid, d = parse_done(op)
+            kind, body = body_of(sid, d.get("body", "none"))
+            if kind != "panic" and not kind.endswith(":x"):
+                owed[sid] = len(body)
+        if f[2] in ("cut", "end", "idle"):
+            torn = True
         if f[2] in ("frame", "bytes") and len(f) == 4:
             for fr in parse_sent(f[3]):
                 if fr.typ == 1 and fr.sid and fr.sid not in allow:
@@ -291,10 +300,21 @@ def mon_flow(ctx, conn):
                 if sid in allow:
                     allow[sid] -= ln
                 allow_conn -= ln
+                if sid in owed:
+                    owed[sid] -= ln
                 if a[1] == "es=1":
                     closed.add(sid)
             elif name == "RST":
                 closed.add(int(args.split(",")[0]))
+            elif name in ("GA", "returned"):
+                torn = True
+        # progress (the property's second sentence), at quiescence: a finished response that still owes octets
+        # is blocked by one of the two windows
+        if not torn and f[2] in ("frame", "bytes", "done", "settle"):
+            for sid, n in owed.items():
+                if n > 0 and sid not in closed and allow.get(sid, 0) > 0 and allow_conn > 0:
+                    viol(ctx, conn, "sendable-left-unsent", dict(sid=sid, owed=n, stream_allow=allow.get(sid), conn_allow=allow_conn, after=op[:80]))
+                    closed.add(sid)
 
 
 def mon_goaway(ctx, conn):
@@ -394,11 +414,25 @@ def mon_limits(ctx, conn):
                     viol(ctx, conn, "header-list-above-limit", dict(size=size, limit=mhl))
 
 
+_GEN = {}
+
+
+def gen_const(name):
+    """a constant the extractor regenerated from the Go source (lean/H2/Gen/Consts.lean)"""
+    if not _GEN:
+        for line in open(os.path.join(os.path.dirname(os.path.dirname(os.path.abspath(__file__))), "lean", "H2", "Gen", "Consts.lean")):
+            m = re.match(r"def (c_\w+) : \w+ := (-?\d+)", line)
+            if m:
+                _GEN[m.group(1)] = int(m.group(2))
+    return _GEN[name]
+
+
 def mon_recv_credit(ctx, conn):
     """C14: a sender model that blocks exactly when its ledger says a window is exhausted. After every step the
     credit still outstanding must leave room to go on: connection outstanding <= advertised/2 + one frame, stream
     outstanding 0 while the stream is open; no zero increment; no window above 2^31-1."""
     adv_conn = 65535
+    adv_conn0 = 65535
     adv_stream = 65535
     out_conn = 0
     out_stream = collections.Counter()
@@ -416,6 +450,7 @@ def mon_recv_credit(ctx, conn):
                             adv_stream = int(kv[2:])
                 elif name == "WU" and args.startswith("0,"):
                     adv_conn += int(args.split(",")[1])
+            adv_conn0 = adv_conn
             continue
         gone = False
         if f[2] in ("frame", "bytes") and len(f) == 4:
@@ -452,6 +487,12 @@ def mon_recv_credit(ctx, conn):
                 ended.add(int(args.split(",")[0]))
         if gone or out.startswith("out gone"):
             return
+        m = re.search(r"rwin=(-?\d+)", out) if f[2] == "gauges" else None
+        if m and int(m.group(1)) - gen_const("c_serverMaxWindow") != (adv_conn - out_conn) - adv_conn0:
+            # the server's own count of the connection window against the sender's ledger, octet for octet
+            viol(ctx, conn, "connection-window-ledger-differs", dict(server_counts=int(m.group(1)), server_started_at=gen_const("c_serverMaxWindow"),
+                                                                      sender_counts=adv_conn - out_conn, sender_started_at=adv_conn0),
+                 known_class="discarded-data-not-credited")
         if out_conn > adv_conn // 2 + max(max_frame, 16384):
             viol(ctx, conn, "connection-credit-withheld", dict(outstanding=out_conn, advertised=adv_conn),
                  known_class="discarded-data-not-credited")
